@@ -408,13 +408,17 @@ func (root *Root) ParseReader(r io.Reader) error {
 		err = root.addTypes(types...)
 	}
 	if err == nil {
-		undo, err = root.addExtends(extends...)
-	}
-	if err == nil {
+		// The implicit schema has to be there before the extensions are
+		// applied, one of them may extend it.
 		if root.schema != nil && root.implicitSchema {
 			undo = append(undo, saveType(root.schema))
 		}
 		root.assureSchema()
+		var xundo []func()
+		xundo, err = root.addExtends(extends...)
+		undo = append(undo, xundo...)
+	}
+	if err == nil {
 		err = root.validate()
 	}
 	if err != nil {
